@@ -2,6 +2,8 @@ package harness
 
 import (
 	"fmt"
+	stakingtypes "github.com/cosmos/cosmos-sdk/x/staking/types"
+	abci "github.com/tendermint/tendermint/abci/types"
 	"math/big"
 	"testing"
 	"time"
@@ -98,6 +100,8 @@ type adWorld struct {
 	Helpers map[string]map[string]common.Address // helper[mode][contract]
 	sink0   sdk.Int
 	sup0    sdk.Int
+	h0      int64 // height and time at which the behaviour started (the infraction reported by Slash)
+	t0      time.Time
 }
 
 var (
@@ -229,6 +233,7 @@ func driveAdapter(t *testing.T, in, out string, seed int64) {
 	for bi, b := range behaviours {
 		w := newAdWorld()
 		c := w.C
+		w.h0, w.t0 = c.Header.Height, c.Header.Time
 		eoa := c.Accts[1]
 		z := M{"pre": "", "post": ""}
 		tw.Emit(M{"ev": "Reset", "b": bi, "i": 0, "res": "ok", "args": M{}, "sig": "Reset", "st": w.project(), "dg": z, "ndg": z})
@@ -308,6 +313,25 @@ func driveAdapter(t *testing.T, in, out string, seed int64) {
 				r := c.DeliverEth(eoa, &to, nil, append(d1, d2...))
 				line["res"], line["msg"] = resOf(r), clip(r.Log+r.VMError)
 				line["sig"] = "Tx2"
+			case "Slash":
+				// double-sign evidence against the second validator, dated at the start of the behaviour: whatever was
+				// unbonded or redelegated away from it since is slashed too (out of the not-bonded pool)
+				snap := func() (sup, sink, pools sdk.Int) {
+					ctx := c.Ctx()
+					pools = c.Bal(authtypes.NewModuleAddress(stakingtypes.BondedPoolName), sdk.DefaultBondDenom).Add(c.Bal(authtypes.NewModuleAddress(stakingtypes.NotBondedPoolName), sdk.DefaultBondDenom))
+					return c.App.BankKeeper.GetSupply(ctx, sdk.DefaultBondDenom).Amount, w.sink(), pools
+				}
+				sup0, sink0, pools0 := snap()
+				v2, ok := c.App.StakingKeeper.GetValidatorByConsAddr(c.Ctx(), c.Val2Cons)
+				if !ok {
+					t.Fatalf("second validator not found by consensus address")
+				}
+				c.NextEvidence = []abci.Evidence{{Type: abci.EvidenceType_DUPLICATE_VOTE, Validator: abci.Validator{Address: c.Val2Cons, Power: v2.ConsensusPower(c.App.StakingKeeper.PowerReduction(c.Ctx()))},
+					Height: w.h0, Time: w.t0, TotalVotingPower: 2 * v2.ConsensusPower(c.App.StakingKeeper.PowerReduction(c.Ctx()))}}
+				c.Commit()
+				sup1, sink1, pools1 := snap()
+				line["res"] = "ok"
+				line["slash"] = M{"supply": sup1.Sub(sup0).String(), "sink": sink1.Sub(sink0).String(), "pools": pools0.Sub(pools1).String(), "power": v2.ConsensusPower(c.App.StakingKeeper.PowerReduction(c.Ctx()))}
 			case "Expire":
 				c.CommitAdvance(11 * time.Second)
 				c.Commit()
